@@ -80,15 +80,16 @@ func (p *planner) planComplex(root iExpressionPlanner, current iExpressionPlanne
 	case "":
 		current.addOp(&simpleExpressionPlanner{script: script, prefix: p.getPrefix()})
 	case "&&":
-		current.addOp(&complexExpressionPlanner{
+		and := &complexExpressionPlanner{
 			prefix: p.getPrefix(),
 			_fn:    "&&",
 			_operands: []iExpressionPlanner{&simpleExpressionPlanner{
 				script: script,
 				prefix: p.getPrefix(),
 			}},
-		})
-		p.planComplex(root, current.operands()[0], script.Tail)
+		}
+		current.addOp(and)
+		p.planComplex(root, and, script.Tail)
 	case "||":
 		current.addOp(&simpleExpressionPlanner{
 			script: script,
